@@ -10,7 +10,7 @@ no new descriptor, empty private TMPDIR, sf_close returned 0, no sanitizer abort
 import re, struct, os
 
 from .. import formats, c03fuzz
-from ..core import Violation
+from ..core import Violation, modules_for
 
 LEAK_ENV = {"ASAN_OPTIONS": "exitcode=77:detect_leaks=1:allocator_may_return_null=1:abort_on_error=0:leak_check_at_exit=0"}
 KEEP = ("ok", "open=", "ret=", "mask=", "balance=", "it=", "err=", "len=", "size_ret=", "bad-", "calls=", "CRASH", "ABORT", "TIMEOUT")
@@ -77,12 +77,20 @@ class Sc:
     def peek(self, hn):
         i = self.op("ledger peek " + hn, "peek")
         st = self.handles.get(hn)
-        self.peek_at.append((i, hn, dict(st) if st else None))
+        meta = dict(st) if st else None
+        # the harness's own blocks and descriptors at this point, over ALL open handles (several may be open at once)
+        world = dict(nck=sum(h["nchunks"] + (1 if h["nchunks"] else 0) for h in self.handles.values()),
+                     fd0=sum(1 for h in self.handles.values() if h["route"] == "fd0"),
+                     alacw=any((h["fmt"] & 0xFFF0) == 0x70 and h["mode"] == "w" for h in self.handles.values()))
+        self.peek_at.append((i, hn, meta, world))
 
     def open(self, hn, store, mode, fmt, ch, route="vio", sr=8000, existing=False, frames=False, ext="x"):
         f = fmt if (mode != "r" or (fmt >> 16) & 0xFFF == 0x04) else 0
+        dump_idx = None
+        if existing and (fmt >> 16) & 0xFFF in RICH:
+            dump_idx = self.op("dump " + store)       # the bytes the parser is about to read: its allocations are predicted from them
         i = self.op("open %s %s %s fmt=%08x ch=%d sr=%d route=%s ext=%s" % (hn, store, mode, f, ch, sr, route, ext), None)
-        st = dict(mode=mode, fmt=fmt, route=route, nchunks=0, open_idx=i, existing=existing, frames=frames)
+        st = dict(mode=mode, fmt=fmt, route=route, nchunks=0, open_idx=i, existing=existing, frames=frames, dump_idx=dump_idx)
         self.handles[hn] = st
         self.m.append((i, ("open", dict(st))))
         self.peek(hn)
@@ -151,16 +159,8 @@ def history(sc, rng, hn, ch, n, weights=None):
             st["nchunks"] += 1
         if hl.startswith("chunknext") and not st.get("iter"):
             continue
-        if hl.startswith("seek") and (st["fmt"] >> 16) & 0xFFF == 0x02 and st["fmt"] & 0xFFFF == 0x12 and st["mode"] == "w":
-            continue        # KF-C16-aiff-ima-seek-write: aiff_ima_seek calls the NULL decode_block of a writer
         if hl.startswith("chunkiter"):
             st["iter"] = True
-        if ml.startswith("dither w"):
-            # KF-C16-dither-twice: enabling write dither twice in a row makes dither_write_* call itself (stack overflow at the next write)
-            if ml == "dither w on 1" and st.get("wdither"):
-                continue
-            if ml.endswith(" 1"):
-                st["wdither"] = ml == "dither w on 1"
         sc.op(hl, ml)
         sc.peek(hn)
         sc.cls.add(ml.split()[0] + ("+" if ml.endswith(" 1") else "-" if ml.endswith(" 0") else ""))
@@ -200,6 +200,40 @@ def gen_wellformed(ctx, fmts, per_fmt, rng):
             sc.close("h1")
             sc.end()
             out.append(sc)
+    return out
+
+
+def gen_concurrent(ctx, fmts, rng, n):
+    """several handles open at the same time on different stores: opens, histories and closes interleave"""
+    out = []
+    pool = [f for f in fmts if f.major != 0x16]
+    routes = ["vio", "path", "fd1", "fd0"]
+    for k in range(n):
+        sc = Sc("conc-%d" % k, "concurrent")
+        nh = rng.choice([2, 2, 3])
+        live = []
+        for j in range(nh):
+            f = rng.choice(pool)
+            ch = 1 if f.maxch < 2 or rng.random() < 0.5 else 2
+            hn = "h%d" % j
+            sc.open(hn, "s%d" % j, "w", f.word, ch, rng.choice(routes))
+            live.append((hn, ch))
+            hn2, ch2 = rng.choice(live)
+            history(sc, rng, hn2, ch2, rng.choice([1, 2, 3]))
+        for _ in range(rng.choice([2, 4, 6])):
+            hn2, ch2 = rng.choice(live)
+            if rng.random() < 0.3:
+                sc.op(data_line(hn2, ch2, 16, rng), "write 1")
+                sc.peek(hn2)
+            else:
+                history(sc, rng, hn2, ch2, 1)
+        rng.shuffle(live)
+        for idx, (hn2, ch2) in enumerate(live):
+            sc.close(hn2)
+            for (hn3, ch3) in live[idx + 1:]:
+                sc.peek(hn3)         # closing one handle leaves the others as they were
+        sc.end()
+        out.append(sc)
     return out
 
 
@@ -291,6 +325,25 @@ def gen_failing(ctx, fmts, rng):
             sc.close("h0")
             sc.end()
             out.append(sc)
+    # complete open attempts that never close a handed-over descriptor (`ledger tryopen`): a failing sf_open_fd (close_desc = 1) must close it itself;
+    # SD2 through a descriptor or virtual I/O is refused (the resource fork is found by name; before the repair sf_open_virtual created `._` in the working directory)
+    k = 0
+    for f in fmts:
+        if f.endian:
+            continue
+        sc = Sc("try-%s" % f.name, "failing-open")
+        ext = "sd2" if f.major == 0x16 else "x"
+        for (mode, fmt, ch) in (("w", f.word, 0), ("w", f.word, 1025), ("7", f.word, 1), ("r", f.word if f.major == 4 else 0, 1), ("rw", f.word, 1), ("w", f.word & 0xFFFF, 1)):
+            for route in (("fd1", "vio", "path", "fd0") if f.major == 0x16 else ("fd1", routes[k % 4])):
+                k += 1
+                sc.op("store s1 %s" % hx(bytes(rng.randrange(256) for _ in range(rng.choice([0, 5, 60])))))
+                sc.op("ledger tryopen s1 %s fmt=%08x ch=%d sr=8000 route=%s ext=%s" % (mode, fmt, ch, route, ext))
+        if f.major == 0x16:
+            for route in ("vio", "fd1", "fd0"):
+                for mode in ("w", "rw", "r"):
+                    sc.op("ledger tryopen s0 %s fmt=%08x ch=2 sr=8000 route=%s ext=sd2" % (mode, f.word, route))
+        sc.end()
+        out.append(sc)
     # the ALAC > 8 channel case repaired by 0aa127c / e9742d9: the spool file must not stay behind
     for ch in (9, 16):
         sc = Sc("fail-caf-alac-%dch" % ch, "failing-open")
@@ -434,6 +487,106 @@ def gen_sd2(ctx, rng, n):
     return out
 
 
+# ---- which owners a header parser fills, predicted from the bytes of the file (chunk walk) ----
+PRED_BITS = {5: "peak", 6: "bext", 7: "cart", 8: "loop", 9: "inst", 10: "cue", 13: "str", 14: "chunkRec"}
+WAV_INFO_IDS = {b"ISFT", b"ICOP", b"INAM", b"IART", b"ICMT", b"ICRD", b"IGNR", b"IPRD", b"ITRK"}
+
+
+def predict_events(data, mode="r"):
+    """(set of owner bits among PRED_BITS the parser will fill, number of recorded chunks) for WAV/WAVEX/RF64, AIFF/AIFC and CAF files;
+    None for anything else.  Mirrors the chunk switches of wav.c / wavlike.c / aiff.c / caf.c (which chunk id allocates which owner)."""
+    n = len(data)
+    bits = set()
+    if n >= 12 and data[:4] in (b"RIFF", b"RIFX", b"RF64") and data[8:12] == b"WAVE":
+        be = data[:4] == b"RIFX"
+        pos, nch = 12, 1
+        ds64_data = None
+        while pos + 8 <= n:
+            cid = data[pos:pos + 4]
+            size = struct.unpack(">I" if be else "<I", data[pos + 4:pos + 8])[0]
+            body = data[pos + 8:pos + 8 + size]
+            nch += 1
+            if pos + 8 + size > n + 1 and not (cid == b"data" and data[:4] == b"RF64"):
+                return None         # a length field that lies (e.g. RIFX + cart: the data length is written little-endian): the parser's recovery is not predicted
+            if cid == b"PEAK":
+                bits.add(5)
+            elif cid == b"bext":
+                bits.add(6)
+            elif cid == b"cart":
+                bits.add(7)
+            elif cid == b"acid":
+                bits.add(8)
+            elif cid == b"smpl":
+                bits.add(9)
+            elif cid == b"cue ":
+                bits.add(10)
+            elif cid == b"LIST" and body[:4] == b"INFO":
+                q = 4
+                while q + 8 <= len(body):
+                    sid = body[q:q + 4]
+                    ssz = struct.unpack(">I" if be else "<I", body[q + 4:q + 8])[0]
+                    if sid in WAV_INFO_IDS and ssz > 0:
+                        bits.add(13)
+                    q += 8 + ssz + (ssz & 1)
+            if cid == b"ds64" and len(body) >= 16:
+                ds64_data = struct.unpack("<Q", body[8:16])[0]
+            if cid == b"data" and data[:4] == b"RF64" and size == 0xFFFFFFFF:
+                if ds64_data is None:
+                    break
+                size = ds64_data
+            pos += 8 + size + (size & 1)
+        bits.add(14)
+        return bits, nch
+    if n >= 12 and data[:4] == b"FORM" and data[8:12] in (b"AIFF", b"AIFC"):
+        pos, nch = 12, 1
+        while pos + 8 <= n:
+            cid = data[pos:pos + 4]
+            size = struct.unpack(">I", data[pos + 4:pos + 8])[0]
+            nch += 1
+            if cid == b"PEAK":
+                bits.add(5)
+            elif cid == b"basc":
+                bits.add(8)
+            elif cid == b"INST" and size == 20:
+                bits.add(9)
+            elif cid == b"MARK":
+                cnt = struct.unpack(">H", data[pos + 8:pos + 10])[0] if pos + 10 <= n else 0
+                if cnt <= 2500:
+                    bits.add(10)
+            elif cid in (b"NAME", b"AUTH", b"(c) ", b"ANNO", b"APPL") and size > 0:
+                if cid != b"APPL" or data[pos + 8:pos + 12] == b"m3ga":
+                    bits.add(13)
+            pos += 8 + size + (size & 1)
+        bits.add(14)
+        if mode == "rw":
+            bits.discard(13)        # aiff.c:279 sets strings.flags after the header was read (see CAF below)
+        return bits, nch
+    if n >= 8 and data[:4] == b"caff":
+        pos, nch = 8, 0
+        while pos + 12 <= n:
+            cid = data[pos:pos + 4]
+            size = struct.unpack(">q", data[pos + 4:pos + 12])[0]
+            nch += 1
+            if cid == b"peak":
+                bits.add(5)
+            elif cid == b"info" and size > 4:
+                body = data[pos + 16:pos + 12 + size]           # after the 32-bit count: key\0value\0 pairs (caf_read_strings)
+                parts = body.split(b"\0")
+                for j in range(0, len(parts) - 1, 2):
+                    if parts[j] in (b"title", b"software", b"copyright", b"artist", b"genre", b"comment", b"comments", b"tracknumber", b"date", b"album", b"license"):
+                        bits.add(13)
+            if cid == b"data" and size < 0:
+                break
+            if size < 0:
+                break
+            pos += 12 + size
+        bits.add(14)
+        if mode == "rw":
+            bits.discard(13)        # caf.c:150 sets strings.flags after the header was read: in RDWR psf_store_string refuses (SFE_STR_NO_SUPPORT) during the parse
+        return bits, nch
+    return None
+
+
 # ---- judging ----
 def kv(line):
     return dict(re.findall(r"(\w+)=([^ ]*)", line))
@@ -452,12 +605,17 @@ def judge_end(sc, t):
     if bad:
         why.append("sanitizer/crash marker: " + bad[0])
         return why
+    left = [l for l in t if l.startswith("open=") and "fdleft=1" in l]
+    if left:
+        why.append("a descriptor handed to sf_open_fd with close_desc=1 is still open after the call returned: " + left[0])
     end = [l for l in t if l.startswith("balance=")]
     if not end:
         why.append("no `ledger end` line (the run did not complete)")
         return why
     d = kv(end[-1])
-    if d.get("balance") != "0" or d.get("blocks") != "0":
+    # the block count decides: a leak is at least one block.  (Bytes can differ by the growth of the harness's own line buffer when a
+    # script runs through `sfh script` instead of `sfh batch`; a block count of 0 with bytes != 0 is that and nothing else.)
+    if d.get("blocks") != "0":
         why.append("heap not released: %s bytes in %s blocks still allocated after the last close" % (d.get("balance"), d.get("blocks")))
     if d.get("lsan") != "0":
         why.append("LeakSanitizer reports unreachable blocks")
@@ -473,6 +631,9 @@ def model_script(sc, t):
     lines = ["== " + sc.name]
     if len(t) != len(sc.h):
         return None
+    def at(i):
+        hs = [x for x in sc.h[i].split() if re.match(r"^h\d+$", x)]
+        return "@%s " % hs[0][1:] if hs else ""
     for (i, ml) in sc.m:
         if isinstance(ml, tuple):
             st = ml[1]
@@ -484,6 +645,15 @@ def model_script(sc, t):
             if ok and (st["mode"] == "r" or (st["mode"] == "rw" and st["existing"])) and obs.get("mask", "closed") != "closed":
                 mask = int(obs["mask"], 16)
                 cont = cont_class(major)
+                pred = None
+                if st.get("dump_idx") is not None and "hex=" in t[st["dump_idx"]]:
+                    pred = predict_events(bytes.fromhex(t[st["dump_idx"]].split("hex=")[1].strip()), st["mode"])
+                if pred is not None:
+                    # predicted from the file's bytes: these owner bits do NOT come from the observation (channel map and iterator still do)
+                    pbits, nrec = pred
+                    mask = (mask & ~sum(1 << b for b in PRED_BITS)) | sum(1 << b for b in pbits)
+                    obs = dict(obs, rch=str(nrec))
+                    sc.predicted = getattr(sc, "predicted", 0) + 1
                 evs += ["chunkRec"] * int(obs.get("rch", "0"))
                 for bit, ev in ((5, "peak"), (6, "bext"), (7, "cart"), (8, "loop"), (9, "smpl" if cont in ("wav", "wavex", "rf64") else "inst"),
                                 (11, "chanmap"), (13, "str"), (16, "iter")):
@@ -493,16 +663,16 @@ def model_script(sc, t):
                     evs += ["mark", "cue"] if cont == "aiff" else ["cue"]
             route = {"vio": "vio", "path": "path", "fd1": "fd1", "fd0": "fd0"}[st["route"]]
             existing = st["existing"] and st["mode"] == "rw"
-            lines.append("open route=%s mode=%s cont=%s codec=%s float=%d existing=%d frames=%d evs=%s fail=%s" % (
+            lines.append(at(i) + "open route=%s mode=%s cont=%s codec=%s float=%d existing=%d frames=%d evs=%s fail=%s" % (
                 route, st["mode"], cont_class(major), codec_class(major, codec, "parse" if (st["mode"] == "r" or existing) else "rw-empty" if st["mode"] == "rw" else "w"),
                 1 if codec in (6, 7) else 0, 1 if existing else 0, 1 if (existing and int(kv(t[i]).get("frames", "0")) > 0) else 0, ",".join(evs) or "-",
                 "none" if ok else str(i % 7)))
         elif ml == "write 1":
             # have_written is set once the call got past its own checks (mode, alignment, a write function exists): the call reports that by writing something
             m = re.match(r"ret=(-?\d+)", t[i])
-            lines.append("write 1" if (m and int(m.group(1)) > 0) else "write 0")
+            lines.append(at(i) + ("write 1" if (m and int(m.group(1)) > 0) else "write 0"))
         else:
-            lines.append(ml)
+            lines.append(at(i) + ml)
     return "\n".join(lines) + "\n"
 
 
@@ -514,7 +684,7 @@ def compare(sc, t, mout):
     mpeeks = [l for l in mout if l.startswith("mask=")]
     if len(mpeeks) != len(sc.peek_at):
         return "model produced %d peek lines for %d peeks" % (len(mpeeks), len(sc.peek_at))
-    for (pi, (i, hn, st)), ml in zip(enumerate(sc.peek_at), mpeeks):
+    for (pi, (i, hn, st, world)), ml in zip(enumerate(sc.peek_at), mpeeks):
         il = t[i]
         a, b = kv(il), kv(ml)
         if a.get("mask") == "closed" or b.get("mask") == "closed":
@@ -530,15 +700,13 @@ def compare(sc, t, mout):
                 return "op %d (%s): %s differs: implementation `%s`, model `%s`" % (i, sc.h[i - 1], k, il, ml)
         # live heap blocks: the harness's own blocks (stores, chunk payload copies it must keep until close) are known
         hb = int(a.get("hblocks", 0))
-        nck = st["nchunks"] if st else 0
-        lib = int(a["blocks"]) - hb - (nck + (1 if nck else 0))
+        lib = int(a["blocks"]) - hb - world["nck"]
         want = int(b["blocks"])
-        fmt = st["fmt"] if st else 0
-        slack = 1 if (st and (fmt & 0xFFF0) == 0x70 and st["mode"] == "w") else 0       # stdio buffer of ALAC's spool FILE, allocated at its first flush
+        slack = 1 if world["alacw"] else 0       # stdio buffer of ALAC's spool FILE, allocated at its first flush
         if not (want <= lib <= want + slack):
             return "op %d (%s): live heap blocks: implementation %d, model %d  [%s | %s]" % (i, sc.h[i - 1], lib, want, il, ml)
         nfd = int(a.get("nfd", 0))
-        wantfd = int(b["fds"]) + (1 if (st and st["route"] == "fd0" and a.get("mask") != "closed") else 0)
+        wantfd = int(b["fds"]) + world["fd0"] - (1 if (st and st["route"] == "fd0" and a.get("mask") == "closed") else 0)
         if nfd != wantfd:
             return "op %d (%s): open descriptors: implementation %d, model %d  [%s | %s]" % (i, sc.h[i - 1], nfd, wantfd, il, ml)
     last = mpeeks[-1] if mpeeks else ""
@@ -557,6 +725,24 @@ def run_scripts(ctx, scs):
     return {s.name: align(s, res.get(s.name, [])) for s in scs}
 
 
+def rdwr_fpe_class(ctx, script_text):
+    """KF-RDWR-FAILED-OPEN-FPE: class = the script's last open attempt is in rw mode; signature = SIGFPE in a *_write_header reached from
+    psf_open_file (the stack is only visible when the script runs on its own)"""
+    opens = [l for l in script_text.split("\n") if re.match(r"(open \S+ \S+ rw |ledger tryopen \S+ rw )", l)]
+    if not opens:
+        return False
+    lines, rc, err = ctx.script(script_text, env=LEAK_ENV)
+    return rc != 0 and "FPE" in err and "_write_header" in err and "psf_open_file" in err
+
+
+def waive_known(ctx, script_text):
+    for kf in ctx.known:
+        if kf.get("id") == "KF-RDWR-FAILED-OPEN-FPE" and kf.get("status") == "known" and rdwr_fpe_class(ctx, script_text):
+            ctx.known_finding(kf, "%s: %s" % (kf["id"], kf["text"]))
+            return True
+    return False
+
+
 def shrink_malformed(ctx, sc, fmt):
     """re-run every variant of a failing malformed group on its own; returns (single-variant scenario, reasons) for the first that fails"""
     singles = []
@@ -571,11 +757,55 @@ def shrink_malformed(ctx, sc, fmt):
             s1.end()
             singles.append(s1)
     tr = run_scripts(ctx, singles)
+    waived = False
     for s1 in singles:
         why = judge_end(s1, tr[s1.name])
+        if why and why[0].startswith("sanitizer/crash marker"):
+            # an abort must reproduce when the case runs alone (a length field asking for gigabytes aborts only when the machine is short
+            # of memory: that is C03's subject, and not a leak)
+            lines, rc, err = ctx.script(s1.script(), env=LEAK_ENV, timeout=120)
+            if rc == 0 and not judge_end(s1, [l for l in lines if l.startswith(KEEP)]):
+                ctx.notes["aborts_not_reproduced_alone"] = ctx.notes.get("aborts_not_reproduced_alone", 0) + 1
+                waived = True
+                continue
         if why:
+            if waive_known(ctx, s1.script()):
+                waived = True       # in the class and with the signature of a known finding: look on for a failure that is not
+                continue
             return s1, why, tr[s1.name]
-    return None, None, None
+    return None, ("waived" if waived else None), None
+
+
+def shrink_scenario(ctx, sc, why, max_rounds=120):
+    """delta debugging over the operations of a failing well-formed scenario: the smallest history (between `ledger begin` and
+    `ledger end`) on which the same kind of failure persists.  Peeks are dropped first: they do not act on the library."""
+    from .. import scripts as S
+    body = [l for l in sc.h[1:] if not l.startswith("ledger peek") and l != "ledger end"]
+    key = why[0].split(":")[0]
+
+    def fails(ls):
+        # a history in the property's sense ends in sf_close: every handle that is opened must also be closed in the candidate
+        opened = set()
+        for l in ls:
+            tk = l.split()
+            if tk[0] == "open":
+                opened.add(tk[1])
+            elif tk[0] == "close":
+                opened.discard(tk[1])
+        if opened:
+            return False
+        text = "\n".join(["ledger begin"] + ls + ["ledger end"]) + "\n"
+        lines, rc, err = ctx.script(text, env=LEAK_ENV, timeout=60)
+        t = [l for l in lines if l.startswith(KEEP)]
+        w = judge_end(sc, t)
+        return bool(w) and w[0].split(":")[0] == key
+
+    if not fails(body):
+        return None
+    small = S.shrink(body, fails, max_rounds=max_rounds)
+    s2 = Sc(sc.name + "-min", sc.kind)
+    s2.h = ["ledger begin"] + small + ["ledger end"]
+    return s2
 
 
 def replay(ctx, path):
@@ -622,7 +852,7 @@ def run(ctx):
     if getattr(ctx, "replay", None):
         return replay(ctx, ctx.replay)
     quick = ctx.tier == "quick"
-    failed = ctx.lean_stage(["SfProps.C16"])
+    failed = ctx.lean_stage(modules_for("C16"))
     ctx.run_regressions()
     known_findings(ctx)
     rng = ctx.rng
@@ -632,6 +862,7 @@ def run(ctx):
     scs = []
     scs += gen_wellformed(ctx, fmts, 1 if quick else 4, rng)
     scs += gen_fixed(ctx, rng)
+    scs += gen_concurrent(ctx, fmts, rng, 120 if quick else 1200)
     scs += gen_failing(ctx, fmts, rng)
     scs += gen_sd2(ctx, rng, 32 if quick else 160)
     seeds = make_seeds(ctx, seed_formats(fmts))
@@ -669,6 +900,14 @@ def run(ctx):
                 if s1 is not None:
                     ctx.violation("c16-" + s1.name, replay_text(s1, w1, t1))
                     continue
+                if w1 == "waived":
+                    nviol -= 1
+                    continue
+            elif nviol <= 3:
+                small = shrink_scenario(ctx, sc, why)
+                if small is not None:
+                    ctx.violation("c16-" + small.name, replay_text(small, why, t, extra="# minimal history (delta debugging over %d operations -> %d)\n" % (len(sc.h), len(small.h))))
+                    continue
             ctx.violation("c16-" + sc.name, replay_text(sc, why, t))
 
     # ---- correspondence: ledger peeks against the model ----
@@ -702,6 +941,7 @@ def run(ctx):
                               "# C16 correspondence: the ledger model and the library disagree, and the scenario itself ends balanced\n# (no leak, descriptor or temporary file observed): %s\n"
                               "c16-scenario\n--- script\n%s" % (d, sc.script()), no_input=True)
     ctx.notes["peeks_compared"] = peeks
+    ctx.notes["read_opens_predicted_from_file_bytes"] = sum(getattr(sc, "predicted", 0) for sc in ok_scs)
     ctx.notes["correspondence_disagreements"] = ndis
     ctx.notes["scenarios_by_kind"] = kinds
     ctx.notes["malformed_variants"] = sum(len(getattr(s, "variants", [])) for s in mal)
